@@ -59,7 +59,7 @@ theorem config_independent (c c' : Cfg) (k : Backing) (cv : CV) (s : List Nat) (
   | false =>
     obtain ⟨o1, a1, p1, m1⟩ := (i1 ranges j).2 hr
     obtain ⟨o2, a2, p2, m2⟩ := (i2 ranges j).2 hr
-    have : o1.toList = o2.toList := Wav.sorted_ext p1 p2 (fun x => by rw [m1 x, m2 x])
+    have : o1.toList = o2.toList := Wav.eq_of_strict_sorted_mem _ _ p1 p2 (fun x => by rw [m1 x, m2 x])
     rw [a1, a2, Array.toList_inj.mp this]
 
 /-! ### non-vacuity -/
